@@ -7,7 +7,8 @@ LStacks3 == StacksUpTo(3)
 LStacks4 == StacksUpTo(4)
 BothShape == {{"startup", "shutdown"}}
 NoShape == {}
-XAddMiddleware == \E s \in AddShapes : AddMiddleware(s)
+AddSeqs == UNION {[1..m -> AddShapes] : m \in 1..MaxAdds}
+XAddMiddleware == \E ss \in AddSeqs : AddMiddlewareSeq(ss)
 XEnter == Enter
 XRecvStartup == RecvStartup
 XStartupOk == phase = "startup" /\ StartupCall("ok")
